@@ -323,7 +323,7 @@ import marshal, json
 s = {"INT": marshal.dumps(5)[0], "BINARY_FLOAT": marshal.dumps(1.5)[0], "TRUE": marshal.dumps(True)[0], "FALSE": marshal.dumps(False)[0],
      "NONE": marshal.dumps(None)[0], "LONG": marshal.dumps(2**40)[0], "SMALL_TUPLE": marshal.dumps((1,))[0], "STRING": marshal.dumps(b"x")[0],
      "CODE": marshal.dumps(compile("1","f","eval"))[0], "ELLIPSIS": marshal.dumps(...)[0], "TUPLE": marshal.dumps(tuple(range(300)))[0],
-     "UNICODE": marshal.dumps("あ" * 3)[0], "SHORT_ASCII": marshal.dumps("abc_def")[0] }
+     "UNICODE": marshal.dumps("あ" * 3)[0], "SHORT_ASCII": marshal.dumps("".join(["a ", "b!"]))[0] }
 print(json.dumps(s))
 '''
     for exe in ['/root/.pyenv/versions/3.11.7/bin/python3', '/root/.pyenv/versions/3.8.18/bin/python3']:
